@@ -8,6 +8,14 @@ Implementation under test (real code, in-process), exactly the path of DOSINIExp
 and, for descriptions of the default platform, the package file set as well:
     Dosini.dump(inst, dir, update_existing=True, is_instance=False)    (writes status.conf / output.conf itself)
     Dosini.load_from_directory(dir, [], {}, is_instance=False)
+Histories on ONE configuration directory: 2-3 descriptions (a workflow, then the same workflow without its last stages /
+another shorter or longer workflow) are written one after the other with dump(update_existing=True) - what
+DOSINIExperimentConfiguration does on every load that may update the files - as instance files, as package files or
+alternating; then the flavour written last is loaded and must be the description written last.
+One process: the first cases of a run (among them components that carry VARIABLES named like options of a backend -
+Dosini.options_for_backend names that are not legacy keys, e.g. the simulator's sim_* - on components of that backend and of
+another one) are read again at the very end, in reverse order, after all other cases: identical answers
+(`result-depends-on-earlier-cases`).
 Oracle (straight from the property text): for every component the resolved configuration
 (get_component_configuration(raw=False, include_default=True): all options, references, variables) is equal,
 and environments, status and output sections are equal.
@@ -16,7 +24,10 @@ the instance `Dosini._flowir_component_to_dict` and `Dosini.parse_component` are
 dumpSection / parseSection; the parse side is also probed key by key.  lean/St4sd/Model/IniNames.lean: names packed
 into the syntax of the files.  lean/St4sd/Model/IniFloat.lean: numbers written as text (stage weights and the other
 fields of a status section): the text `_dump_status` puts on disk and the float `parse_status` returns are compared
-with printWeight / parseWeight on the number's literal (repr), exactly.
+with printWeight / parseWeight on the number's literal (repr), exactly.  lean/St4sd/Model/IniProc.lean: the reader as a
+process (the sections of a case parsed in turn by the real parse_component == parseSeq; the answer of
+known_flowir_options() afterwards == the model state).  lean/St4sd/Model/IniDir.lean: the stage files of both flavours in
+stages.d after every write of a history and the stages a load discovers.
 """
 from __future__ import annotations
 
@@ -344,6 +355,49 @@ def make_instance(spec):
     return inst
 
 
+def _write(dos, inst, d, is_instance):
+    """one write of the description `inst` into the configuration directory d (which may hold earlier writes)"""
+    dos.dump(copy.deepcopy(inst), d, update_existing=True, is_instance=is_instance)
+    if is_instance:
+        # status.conf / output.conf are package files that an instance directory carries along (the instance writer
+        # does not touch them): they are those of the package of the description being written
+        for fn in ("status.conf", "output.conf"):
+            if os.path.exists(os.path.join(d, fn)):
+                os.remove(os.path.join(d, fn))
+        dos._dump_status(copy.deepcopy(inst), d)
+        dos._dump_output(copy.deepcopy(inst), d)
+
+
+def _load(dos, d, spec, is_instance, prefix):
+    """load_from_directory + the canonical observations of the loaded description"""
+    F, D = _imports()
+    try:
+        errs = []
+        new = dos.load_from_directory(d, [], {}, is_instance=is_instance, out_errors=errs)
+        c2 = F.FlowIRConcrete(new, "default", {})
+    except Exception as exc:
+        return {"error": prefix + "reload-raises:" + type(exc).__name__, "message": str(exc)[:300]}
+    loaded = {"comps": {}, "load_errors": sorted("%s: %s" % (type(e).__name__, str(e)[:120]) for e in errs)}
+    ids2 = sorted(c2.get_component_identifiers(True))
+    for cid in ids2:
+        try:
+            loaded["comps"]["stage%d.%s" % cid] = flat_config(c2.get_component_configuration(
+                cid, raw=False, include_default=True, is_primitive=True))
+        except Exception as exc:
+            loaded["comps"]["stage%d.%s" % cid] = {"<raises>": "%s: %s" % (type(exc).__name__, str(exc)[:200])}
+    loaded["envs"] = canon_envs(c2.get_environments())
+    loaded["status"] = canon_section(c2.get_status())
+    loaded["output"] = canon_section(c2.get_output())
+    if spec.get("replicate"):
+        try:
+            r2 = F.FlowIRConcrete(c2.replicate(), "default", {})
+            loaded["replicated"] = {"stage%d.%s" % cid: flat_config(r2.get_component_configuration(
+                cid, raw=False, include_default=True)) for cid in sorted(r2.get_component_identifiers(True))}
+        except Exception as exc:
+            loaded["replicated"] = {"<raises>": "%s: %s" % (type(exc).__name__, str(exc)[:200])}
+    return {"loaded": loaded}
+
+
 def _dump_and_load(inst, spec, workdir, files):
     """one write -> load of the instance description `inst`; files = 'instance' (conf/ of an instance directory:
     dump(is_instance=True) + status.conf/output.conf, load_from_directory(is_instance=True)) or 'package'
@@ -356,37 +410,79 @@ def _dump_and_load(inst, spec, workdir, files):
     try:
         dos = D.Dosini()
         try:
-            dos.dump(copy.deepcopy(inst), d, update_existing=True, is_instance=is_instance)
-            if is_instance:
-                dos._dump_status(copy.deepcopy(inst), d)
-                dos._dump_output(copy.deepcopy(inst), d)
+            _write(dos, inst, d, is_instance)
         except Exception as exc:
             return {"error": prefix + "dump-raises:" + type(exc).__name__, "message": str(exc)[:300]}
-        try:
-            errs = []
-            new = dos.load_from_directory(d, [], {}, is_instance=is_instance, out_errors=errs)
-            c2 = F.FlowIRConcrete(new, "default", {})
-        except Exception as exc:
-            return {"error": prefix + "reload-raises:" + type(exc).__name__, "message": str(exc)[:300]}
-        loaded = {"comps": {}, "load_errors": sorted("%s: %s" % (type(e).__name__, str(e)[:120]) for e in errs)}
-        ids2 = sorted(c2.get_component_identifiers(True))
-        for cid in ids2:
+        return _load(dos, d, spec, is_instance, prefix)
+    finally:
+        shutil.rmtree(d, ignore_errors=True)
+
+
+def observe_written(inst, spec):
+    """the canonical observations of the description that is written"""
+    F, D = _imports()
+    c1 = F.FlowIRConcrete(copy.deepcopy(inst), "default", {})
+    ids = sorted(c1.get_component_identifiers(True))
+    written = {"comps": {}, "inst": inst}
+    for cid in ids:
+        written["comps"]["stage%d.%s" % cid] = flat_config(c1.get_component_configuration(
+            cid, raw=False, include_default=True, is_primitive=True))
+    written["envs"] = canon_envs(c1.get_environments())
+    written["status"] = canon_section(c1.get_status())
+    written["output"] = canon_section(c1.get_output())
+    if spec.get("replicate"):
+        r1 = F.FlowIRConcrete(c1.replicate(), "default", {})
+        written["replicated"] = {"stage%d.%s" % cid: flat_config(r1.get_component_configuration(
+            cid, raw=False, include_default=True)) for cid in sorted(r1.get_component_identifiers(True))}
+    return written
+
+
+def stage_files(d):
+    """stage indices of the stage files of both flavours in d/stages.d"""
+    out = {"inst": [], "pkg": []}
+    sd = os.path.join(d, "stages.d")
+    for fn in sorted(os.listdir(sd)) if os.path.isdir(sd) else []:
+        if fn.startswith("stage") and fn.endswith(".instance.conf"):
+            out["inst"].append(int(fn[5:-len(".instance.conf")]))
+        elif fn.startswith("stage") and fn.endswith(".conf"):
+            out["pkg"].append(int(fn[5:-len(".conf")]))
+    return {k: sorted(v) for k, v in out.items()}
+
+
+def history_roundtrip(hist, workdir):
+    """hist = {"files": "instance" | "package" | "both", "specs": [spec, ...]}: every description is written into ONE
+    configuration directory, one after the other, the way DOSINIExperimentConfiguration does on every load that may update
+    the files (dump(update_existing=True): clean up, then regenerate); for "both" the flavours alternate.  Then the
+    flavour written last is loaded.  -> dict(written=<last description>, loaded=... | error=..., listings=[...])"""
+    F, D = _imports()
+    specs = hist["specs"]
+    insts = []
+    try:
+        for sp in specs:
+            insts.append(make_instance(sp))
+        written = observe_written(insts[-1], specs[-1])
+    except Exception as exc:
+        return {"invalid": "%s: %s" % (type(exc).__name__, str(exc)[:300])}
+    flavours = []
+    for i in range(len(specs)):
+        back = len(specs) - 1 - i
+        flavours.append({"instance": True, "package": False}.get(hist["files"], back % 2 == 0))
+    for inst, fl in zip(insts, flavours):
+        if not fl and list(inst.get("platforms") or ["default"]) != ["default"]:
+            return {"invalid": "package files of a description of another platform"}
+    d = tempfile.mkdtemp(prefix="hist-", dir=workdir)
+    res = {"written": written, "listings": [], "flavours": flavours}
+    try:
+        dos = D.Dosini()
+        for inst, fl in zip(insts, flavours):
             try:
-                loaded["comps"]["stage%d.%s" % cid] = flat_config(c2.get_component_configuration(
-                    cid, raw=False, include_default=True, is_primitive=True))
+                _write(dos, inst, d, fl)
             except Exception as exc:
-                loaded["comps"]["stage%d.%s" % cid] = {"<raises>": "%s: %s" % (type(exc).__name__, str(exc)[:200])}
-        loaded["envs"] = canon_envs(c2.get_environments())
-        loaded["status"] = canon_section(c2.get_status())
-        loaded["output"] = canon_section(c2.get_output())
-        if spec.get("replicate"):
-            try:
-                r2 = F.FlowIRConcrete(c2.replicate(), "default", {})
-                loaded["replicated"] = {"stage%d.%s" % cid: flat_config(r2.get_component_configuration(
-                    cid, raw=False, include_default=True)) for cid in sorted(r2.get_component_identifiers(True))}
-            except Exception as exc:
-                loaded["replicated"] = {"<raises>": "%s: %s" % (type(exc).__name__, str(exc)[:200])}
-        return {"loaded": loaded}
+                res.update({"error": "dump-raises:" + type(exc).__name__, "message": str(exc)[:300]})
+                return res
+            res["listings"].append(stage_files(d))
+        res.update(_load(dos, d, specs[-1], flavours[-1], ""))
+        return res
     finally:
         shutil.rmtree(d, ignore_errors=True)
 
@@ -397,19 +493,7 @@ def roundtrip(spec, workdir):
     F, D = _imports()
     try:
         inst = make_instance(spec)
-        c1 = F.FlowIRConcrete(copy.deepcopy(inst), "default", {})
-        ids = sorted(c1.get_component_identifiers(True))
-        written = {"comps": {}, "inst": inst}
-        for cid in ids:
-            written["comps"]["stage%d.%s" % cid] = flat_config(c1.get_component_configuration(
-                cid, raw=False, include_default=True, is_primitive=True))
-        written["envs"] = canon_envs(c1.get_environments())
-        written["status"] = canon_section(c1.get_status())
-        written["output"] = canon_section(c1.get_output())
-        if spec.get("replicate"):
-            r1 = F.FlowIRConcrete(c1.replicate(), "default", {})
-            written["replicated"] = {"stage%d.%s" % cid: flat_config(r1.get_component_configuration(
-                cid, raw=False, include_default=True)) for cid in sorted(r1.get_component_identifiers(True))}
+        written = observe_written(inst, spec)
     except Exception as exc:  # the generated description itself is not a valid experiment: not a test of C19
         return {"invalid": "%s: %s" % (type(exc).__name__, str(exc)[:300])}
     res = {"written": written}
@@ -579,6 +663,7 @@ def compare_tables(ctx, spec, inst):
     outs = ctx.model(reqs)
     if outs is None:
         return
+    inis, backs = [], []
     for comp, m in zip(comps, outs):
         label = {"spec": spec, "component": "stage%s.%s" % (comp.get("stage"), comp.get("name"))}
         try:
@@ -591,6 +676,19 @@ def compare_tables(ctx, spec, inst):
         mp = None if m["parsed"] is None else sorted(
             ({"p": e["p"], "v": canon_val(e["v"])} for e in m["parsed"]), key=lambda e: json.dumps(e["p"]))
         ctx.compare("parse_component == Ini.parseSection", label, mp, None if back is None else pairs_json(back))
+        inis.append(ini)
+        backs.append(None if back is None else pairs_json(back))
+    # the reader as a process (Model/IniProc.lean): the sections of the case in the order they were read, each parsed in
+    # the state the earlier ones (of this and of every earlier case of the run) left, and that state afterwards
+    F, D = _imports()
+    seq = ctx.model([{"op": "parse_seq", "sections": [[{"k": k, "t": v} for k, v in ini.items()] for ini in inis]}])
+    if seq is not None and inis:
+        label = {"spec": spec, "check": "sections of the case read in one process"}
+        mp = [None if l is None else sorted(({"p": e["p"], "v": canon_val(e["v"])} for e in l),
+                                            key=lambda e: json.dumps(e["p"])) for l in seq[0]["parsed"]]
+        ctx.compare("parse_component on every section of the case in turn == IniProc.parseSeq", label, mp, backs)
+        ctx.compare("known_flowir_options() after the sections read so far == IniProc state (the generated knownKeys)",
+                    label, sorted(seq[0]["known"]), sorted(D.Dosini.known_flowir_options()))
 
 
 PROBE_TEXTS = ["true", "No", "TRUE", "yes", "False", "%(Abc)s", "%(abc)s/x", "x%(a)s", "12", "-3", "+4", "007", "1.5",
@@ -1046,6 +1144,31 @@ def gen_vars(rng, n, pool=VAR_POOL):
     return out
 
 
+# names that Dosini.options_for_backend lists for some backend but that are NOT legacy keys (today: the simulator's
+# sim_range_schedule_overhead / sim_range_execution_time / sim_expected_exit_code): for writer and reader they are
+# ordinary component variables - the simulator backend is parametrised through them.  Filled in by run()/replay() from
+# the generated tables.
+BACKEND_ONLY_NAMES = []
+
+
+def backend_of(c):
+    for p, v in c["opts"]:
+        if p == ["resourceManager", "config", "backend"]:
+            return v
+    return None
+
+
+def add_backend_named_vars(rng, c, force=False):
+    """component variables named like options of a backend: mostly on components of that kind of backend (simulator),
+    sometimes on any other component (same names, different role)"""
+    if not BACKEND_ONLY_NAMES:
+        return
+    p = 0.75 if backend_of(c) == "simulator" else 0.12
+    if force or rng.random() < p:
+        for n in rng.sample(BACKEND_ONLY_NAMES, rng.randint(1, len(BACKEND_ONLY_NAMES))):
+            c.setdefault("vars", {})[n] = rng.choice(["0", "1", "5:10", "0.5:2.5", str(rng.randint(0, 255)), "%(gInt)s"])
+
+
 def pick_env_names(rng):
     """three environment names that differ by more than case (the format stores them upper-cased)"""
     names = []
@@ -1151,6 +1274,7 @@ def gen_spec(rng, all_options=False, backend=None, nstages=None):
                 opts = [[p, (backend if p == ["resourceManager", "config", "backend"] else v)] for p, v in opts]
             c = {"name": name, "stage": stage, "opts": opts, "refs": gen_refs(rng, earlier) if rng.random() < 0.8 else None,
                  "vars": gen_vars(rng, rng.randint(0, 3))}
+            add_backend_named_vars(rng, c)
             if rng.random() < 0.08 and not all_options:
                 c["interpreter"] = rng.choice(["bash", "javascript", "cwl"])
                 c["iargs"] = rng.choice(["echo hi", "1+1", "run.sh -v x"])
@@ -1222,6 +1346,82 @@ def gen_replication_spec(rng):
     return spec
 
 
+def truncate_spec(spec, m):
+    """the same workflow without its stages >= m (the user dropped the last stages)"""
+    t = copy.deepcopy(spec)
+    t["comps"] = [c for c in t["comps"] if c["stage"] < m]
+    for key in ("svars", "psvars", "bp_stage"):
+        if key in t:
+            t[key] = {k: v for k, v in t[key].items() if int(k) < m}
+    for key in ("status", "output", "weights"):
+        t.pop(key, None)
+    return t
+
+
+def gen_history(rng, quick=True, big=False):
+    """2-3 descriptions written into one configuration directory: a workflow and shorter / longer / other versions of it"""
+    files = rng.choice(["instance", "instance", "package", "both"])
+    big = big or ((not quick) and rng.random() < 0.15)
+    n0 = rng.choice([11, 12]) if big else rng.randint(2, 4)
+    first = gen_spec(rng, nstages=n0)
+    specs = [first]
+    for _ in range(rng.choice([1, 1, 2])):
+        prev = specs[-1]
+        nprev = 1 + max(c["stage"] for c in prev["comps"])
+        kind = rng.random()
+        if kind < 0.45 and nprev > 1:
+            specs.append(truncate_spec(prev, rng.randint(1, nprev - 1)))        # the last stages dropped
+        elif kind < 0.8:
+            specs.append(gen_spec(rng, nstages=rng.randint(1, max(1, nprev - 1))))    # another, shorter workflow
+        else:
+            specs.append(gen_spec(rng, nstages=nprev + rng.randint(0, 2)))      # another workflow, as long or longer
+    if files != "instance":
+        for sp in specs:
+            sp["platform"] = "default"
+            for key in ("pbp_global", "pgvars", "psvars", "penvs"):
+                sp.pop(key, None)
+    return {"files": files, "specs": specs}
+
+
+def run_history(ctx, hist, workdir, tags=()):
+    res = history_roundtrip(hist, workdir)
+    counts = [1 + max(c["stage"] for c in sp["comps"]) for sp in hist["specs"]]
+    t = list(tags) + ["history", "history-files:" + hist["files"], "history-writes:%d" % len(counts)]
+    for a, b in zip(counts, counts[1:]):
+        t.append("history-step:" + ("fewer-stages" if b < a else ("same-number-of-stages" if a == b else "more-stages")))
+    if "invalid" in res:
+        ctx.case(hist, nontrivial=False, tags=t + ["invalid-generated-description"])
+        return res
+    res["written"].pop("inst", None)
+    fails = []
+    if "error" in res:
+        fails.append((res["error"], {"message": res.get("message"), "history_stages": counts}))
+    else:
+        files = "instance" if res["flavours"][-1] else "package"
+        seen = set()
+        for slug, detail in _oracle_one(res["written"], res["loaded"], files):
+            if slug not in seen:        # one per slug: the detail carries the history
+                seen.add(slug)
+                fails.append((slug, dict(detail, history_stages=counts, history_flavours=res["flavours"],
+                                         stage_files=res["listings"][-1])))
+    t.append("oracle:" + ("fail" if fails else "ok"))
+    ctx.case(hist, nontrivial="error" not in res, tags=sorted(set(t)))
+    for slug, detail in fails:
+        ctx.fail(slug, hist, detail)
+    # the directory model (Model/IniDir.lean): stage files of both flavours after every write, what the load discovers
+    m = ctx.model([{"op": "dir_history", "history": [{"instance": fl, "stages": list(range(n))}
+                                                      for fl, n in zip(res["flavours"], counts)]}])
+    if m is not None:
+        label = {"history_stages": counts, "flavours": res["flavours"], "files": hist["files"]}
+        ctx.compare("stage files in stages.d after every write == IniDir.dump history", label,
+                    [{"inst": sorted(a["inst"]), "pkg": sorted(a["pkg"])} for a in m[0]["after"]], res["listings"])
+        if "loaded" in res:
+            found = m[0]["discover_inst"] if res["flavours"][-1] else m[0]["discover_pkg"]
+            ctx.compare("stages of the loaded description == IniDir.discover", label, found,
+                        sorted({int(k.split(".")[0][5:]) for k in res["loaded"]["comps"]}))
+    return res
+
+
 CORPUS = [
     # (1) max-restarts is written but parsed under the name maxRestarts (fix: fixes/C19-max-restarts-key.diff)
     {"platform": "default", "mode": "conf", "comps": [
@@ -1278,6 +1478,39 @@ def run_case(ctx, spec, workdir, tags=()):
         ctx.fail(slug, spec, detail)
     compare_tables(ctx, spec, inst)
     return res
+
+
+def early_specs(rng, n):
+    """ordinary generated workflows + two whose components carry variables named like options of a backend: one on a
+    component of another backend, one on a component of that backend"""
+    specs = [gen_spec(rng) for _ in range(n)]
+    for backend in ("local", "simulator"):
+        sp = gen_spec(rng, nstages=2)
+        for c in sp["comps"]:
+            c["opts"] = [[p, v] for p, v in c["opts"] if p != ["resourceManager", "config", "backend"]]
+            c["opts"].append([["resourceManager", "config", "backend"], backend])
+            add_backend_named_vars(rng, c, force=True)
+        specs.insert(0 if backend == "local" else len(specs), ensure_valid(sp))
+    return specs
+
+
+def canon_result(res):
+    """what a second reading of the same case must reproduce"""
+    keep = {k: res.get(k) for k in ("invalid", "error", "written", "loaded")}
+    if isinstance(keep.get("written"), dict):
+        keep["written"] = {k: v for k, v in keep["written"].items() if k != "inst"}
+    pkg = res.get("package")
+    if pkg is not None:
+        keep["package"] = {k: pkg.get(k) for k in ("error", "loaded")}
+    return json.loads(json.dumps(keep, sort_keys=True, default=str))
+
+
+def first_difference(a, b, path=""):
+    if isinstance(a, dict) and isinstance(b, dict):
+        for k in sorted(set(a) | set(b)):
+            if a.get(k) != b.get(k):
+                return first_difference(a.get(k), b.get(k), path + "/" + str(k))
+    return {"where": path, "first_reading": a, "second_reading": b}
 
 
 def make_shrinker(workdir):
@@ -1351,6 +1584,13 @@ def run(ctx):
                 "Model/IniFloat (text on disk = printWeight, literal read back = parseWeight). Workflows of the default "
                 "platform are additionally written as the package file set (Dosini.dump(is_instance=False), which "
                 "writes status.conf/output.conf itself) and loaded with load_from_directory(is_instance=False). "
+                "Component variables named like options of a backend that are not legacy keys (generated table: "
+                "options_for_backend minus known keys) are drawn for 75%% of the simulator components and 12%% of the others. "
+                "Histories: 25 (250 thorough) sequences of 2-3 descriptions written into one configuration directory "
+                "(instance files / package files / alternating; the next description = the previous one without its last "
+                "stages, another shorter workflow, or a longer one), the flavour written last is loaded and compared with "
+                "the description written last. The first 8 (26 thorough) cases of the run are read again at its end in "
+                "reverse order and must give identical answers. "
                 "non-trivial = at least one explicitly set option and dump+reload completed; distinct by canonical JSON of "
                 "the case. Every component of every instance additionally goes through the real writer/reader and the Lean "
                 "model's dumpSection/parseSection; the reader is probed with %d texts for every known key."
@@ -1372,6 +1612,8 @@ def run(ctx):
         "floats: CPython float(repr(x)) == x is trusted; the model treats a float as its decimal literal (sign, integer "
         "digits, fraction digits, exponent); finite numbers only (no inf/nan), float() is modelled on decimal literals "
         "without surrounding white space and without '_'; -0.0 is not generated",
+        "histories: status.conf / output.conf of an instance directory are package files which Dosini.dump(is_instance=True) "
+        "does not write; the harness replaces them by those of the description being written at every step",
         "the package file set is written only for descriptions whose platform list is ['default'] (Dosini._dump_platforms "
         "addresses the per-platform sections of every listed platform, which an instance description no longer has)",
     ]
@@ -1390,7 +1632,16 @@ def run(ctx):
     workdir = tempfile.mkdtemp(prefix="c19-")
     ctx.shrinker = make_shrinker(workdir)
     cwd = os.getcwd()
+    BACKEND_ONLY_NAMES[:] = t["backend_only"]
+    ctx.extra["tables"]["backend_option_names_that_are_not_legacy_keys"] = list(BACKEND_ONLY_NAMES)
     try:
+        # family: state shared by the loads of one process (class attributes, cached lists).  These cases are the FIRST
+        # thing the process reads and are read again at the very end, in reverse order, after every other case (all
+        # backends, all option keys, the same component / variable / environment names in other roles): same answers.
+        early = []
+        for spec in early_specs(rng, 6 if quick else 24):
+            res = run_case(ctx, spec, workdir, tags=["read-first-and-again-last"])
+            early.append((spec, canon_result(res)))
         probe_parse_side(ctx, t)
         probe_names(ctx, workdir)
         probe_numbers(ctx, workdir)
@@ -1411,6 +1662,18 @@ def run(ctx):
             run_case(ctx, gen_spec(rng, nstages=n), workdir, tags=["many-stages"])
         for _ in range(15 if quick else 150):
             run_case(ctx, gen_replication_spec(rng), workdir, tags=["replication"])
+        # histories on one configuration directory
+        run_history(ctx, gen_history(rng, quick, big=True), workdir)     # 11-12 stages, then fewer
+        for _ in range(24 if quick else 250):
+            run_history(ctx, gen_history(rng, quick), workdir)
+        for spec, first in reversed(early):
+            res = roundtrip(copy.deepcopy(spec), workdir)
+            if "written" in res:
+                res["written"].pop("inst", None)
+            ctx.tag("read-again-last")
+            second = canon_result(res)
+            if second != first:
+                ctx.fail("result-depends-on-earlier-cases", spec, first_difference(first, second))
         covered = {k[4:] for k in ctx.tags if k.startswith("opt:")}
         missing = sorted(".".join(p) for p in CAT_PATHS if ".".join(p) not in covered)
         ctx.extra["options_never_generated"] = missing
@@ -1432,8 +1695,12 @@ def replay(ctx, doc):
                 case = b["input"]
     workdir = tempfile.mkdtemp(prefix="c19-")
     try:
+        BACKEND_ONLY_NAMES[:] = gen_c19.tables()["backend_only"]
         if isinstance(case, dict) and "spec" in case:
             case = case["spec"]
+        if isinstance(case, dict) and "specs" in case and "files" in case:
+            run_history(ctx, case, workdir, tags=["replay"])
+            return
         if isinstance(case, dict) and case.get("probe") in ("status-weight", "status-section", "status-weight-text", "number-option"):
             probe_numbers(ctx, workdir, only=case)
         elif isinstance(case, dict) and "probe" in case:
